@@ -229,12 +229,48 @@ def tie_C05(ctx):
             ctx.fail("projection", f"{g}: after the history the cursor is not at word {pos} of the native stream (a word was skipped or repeated)",
                      c, expected=want, actual=nxt)
 
+def tie_C05_jitter(ctx):
+    rng = ctx.rng
+    cases, meta = [], []
+    for i in range(ctx.scale(150, 2500)):
+        r = rng.choice([1, 1, 2, 3])
+        ops = rand_ops(rng, rng.randrange(2, 9), maxfill=40)
+        ops = [o if not o.startswith("fill") else f"fill {rng.choice([0, 1, 2, 3, 4, 5, 6, 7, 8, 9, 11, 12, 13, 16, 17, 20, 23])}" for o in ops]
+        need = sum(1 if o in ("u32", "u64") else int(o.split()[1]) // 8 + 1 for o in ops) + 2
+        rs = good_readings(rng, 1 + 3 * (r + 2) * need + 30)
+        hx = rd_hex(rs)
+        c = [f"timer 0 {hx}", "jit 1 0", f"rounds 1 {r}", f"timer 2 {hx}", "jit 3 2", f"rounds 3 {r}"] + op_lines(1, ops)
+        ts = len(c)
+        c += ["u64 3"] * need
+        cases.append(c); meta.append((ops, ts, need))
+        for o in ops:
+            ctx.dist["jitter-op:" + o.split()[0]] += 1
+    outs = ctx.real("projection(JitterRng): history on subject, next_u64-only twin on an identical scripted timer", cases)
+    pcases = [[f"proj jitter {','.join(o[ts:])} " + " ".join(proj_tokens(ops))] for (ops, ts, need), o in zip(meta, outs)]
+    pouts = run_chunks(DRIVER, pcases, chunk=200)
+    for (ops, ts, need), c, o, po in zip(meta, cases, outs, pouts):
+        if "blocked" in o:
+            ctx.dist["jitter-blocked"] += 1
+            continue
+        vals = po[0].split(" | ")[0]
+        exp = vals.split(" ") if vals else []
+        act = o[6:6 + len(ops)]
+        ctx.traces_validated += 1
+        if exp != act:
+            k = next((i for i, (x, y) in enumerate(zip(exp, act)) if x != y), 0)
+            ctx.fail("projection", f"JitterRng: op #{k} `{ops[k]}` (after {ops[:k]}) is not the documented projection of the stream of collected values",
+                     c, expected=exp[k][:80], actual=act[k][:80])
+
+def tie_C05_all(ctx):
+    tie_C05(ctx)
+    tie_C05_jitter(ctx)
+
 PROPS = {
-    "C01": dict(tie=tie_C01),
-    "C02": dict(tie=tie_C02),
-    "C03": dict(tie=tie_C03),
-    "C04": dict(tie=tie_C04),
-    "C05": dict(tie=tie_C05),
+    "C01": dict(tie=tie_C01, absolute=True),
+    "C02": dict(tie=tie_C02, absolute=True),
+    "C03": dict(tie=tie_C03, absolute=True),
+    "C04": dict(tie=tie_C04, absolute=True),
+    "C05": dict(tie=tie_C05_all),
 }
 
 # ------------------------------------------------------------------ helpers on state images
@@ -489,9 +525,7 @@ def tie_C09(ctx):
         for g in fam14:
             nb = GENS[g]["seed"]
             exp = stream[:nb]
-            c = [f"new 0 {g} u64 {x:016x}", "ser 0"]
-            if any(exp):
-                c += [f"new 2 {g} seed {exp.hex()}", "eq 0 2"]
+            c = [f"new 0 {g} u64 {x:016x}", "ser 0", f"new 2 {g} seed {exp.hex()}", "eq 0 2"]
             cases.append(c)
         for g, nb in (("XorShiftRng", 16), ("Hc128Rng", 32)):
             exp = pcg32_seed(x, nb)
@@ -890,7 +924,7 @@ def tie_C13(ctx):
 PROPS.update({
     "C10": dict(tie=tie_C10),
     "C11": dict(tie=tie_C11),
-    "C12": dict(tie=tie_C12),
+    "C12": dict(tie=tie_C12, absolute=True),
     "C13": dict(tie=tie_C13),
 })
 
@@ -1073,7 +1107,7 @@ def tie_C16(ctx):
             body = ["u32 1", "calls 0", "u32 1", "calls 0", "u64 3", "calls 2", "u32 1", "calls 0", "u64 3", "u64 3"]
         elif shape == 1:
             x = rng.choice(["u64 1", "fill 1 5", "fill 1 8", "fill 1 13", "fill 1 7", "fill 1 16"])
-            body = ["u32 1", "calls 0", x, "calls 0", "u64 3", "u64 3", "u64 3"]
+            body = ["u32 1", "calls 0", x, "calls 0", "u64 3", "u64 3", "u64 3", "u32 1", "calls 0"]
         elif shape == 2:
             body = ["u32 1", "calls 0", "clone 4 1", "u32 4", "calls 0", "u32 1", "calls 0", "u64 3", "u64 3", "u32 4", "u32 1"]
         elif shape == 3:
@@ -1110,6 +1144,13 @@ def tie_C16(ctx):
             if c2 - c1 < fresh or not okv:
                 ctx.fail("discard", f"`{c[8]}` after a next_u32 did not discard the pending half and start a fresh collection "
                          f"({c2 - c1} timer readings, need >= {fresh})", c, expected=w2, actual=got)
+            # a following next_u32 must not hand out a half of an already returned value
+            nwords = 1 if c[8].startswith("u64") else (int(c[8].split()[2]) + 7) // 8
+            tailn = 0 if c[8].startswith("u64") else int(c[8].split()[2]) % 8
+            c3 = int(b[8])
+            if not (1 <= tailn <= 4) and (c3 - c2 < fresh):
+                ctx.fail("twice", f"next_u32 after `{c[8]}` returned a half of a value that was already handed out "
+                         f"(no fresh collection: {c3 - c2} timer readings)", c, expected="fresh collection", actual=b[7])
         elif shape == 2:
             c1, c2, c3 = int(b[1]), int(b[4]), int(b[6])
             w1, w2 = b[7], b[8]
